@@ -3,7 +3,9 @@ package main
 import (
 	"fmt"
 	"net/netip"
+	"sort"
 	"strings"
+	"sync"
 
 	"github.com/AdguardTeam/urlfilter"
 	"github.com/AdguardTeam/urlfilter/filterlist"
@@ -107,6 +109,26 @@ func init() {
 			if tier == "thorough" {
 				n = 800000
 			}
+			// one engine asked for different listed names by several goroutines at once: each answer consists of the rules
+			// listing THAT name, with their addresses, exactly as when asked alone
+			for i := 0; i < n/1500; i++ {
+				var lines []string
+				for k := 0; k < 4+g.Intn(8); k++ {
+					ip := fmt.Sprintf("10.%d.%d.%d", i%250, k, 1+g.Intn(250))
+					if g.Chance(1, 3) {
+						ip = fmt.Sprintf("2001:db8::%x:%x", i, k+1)
+					}
+					l := fmt.Sprintf("%s conc%d.example", ip, k)
+					if g.Chance(1, 3) {
+						l += fmt.Sprintf(" alias%d.example", k)
+					}
+					if g.Chance(1, 4) {
+						l += fmt.Sprintf(" conc%d.example", (k+1)%4) // a name listed by two lines
+					}
+					lines = append(lines, l)
+				}
+				emit("conc\t" + encList(lines) + "\t" + fmt.Sprint(Pick(g, []int{2, 4, 8, 16})))
+			}
 			for i := 0; i < n; i++ {
 				probes := []string{Pick(g, hostsNames), Pick(g, hostsNames)}
 				if g.Chance(1, 6) {
@@ -150,6 +172,68 @@ func init() {
 		},
 		Run: func(line string, st *Stats) (string, string, bool) {
 			f := strings.Split(line, "\t")
+			if f[0] == "conc" {
+				lines := decList(f[1])
+				var nw int
+				fmt.Sscan(f[2], &nw)
+				s, serr := filterlist.NewRuleStorage([]filterlist.RuleList{&filterlist.StringRuleList{ID: 3, RulesText: strings.Join(lines, "\n") + "\n"}})
+				must(serr)
+				e := urlfilter.NewDNSEngine(s)
+				nameSet := map[string]bool{}
+				for _, l := range lines {
+					for _, nm := range strings.Fields(l)[1:] {
+						nameSet[nm] = true
+					}
+				}
+				var names []string
+				for nm := range nameSet {
+					names = append(names, nm)
+				}
+				sort.Strings(names)
+				ser := func(res *urlfilter.DNSResult, ok bool) string {
+					if !ok || res == nil {
+						return "-"
+					}
+					var p []string
+					for _, r := range res.HostRulesV4 {
+						p = append(p, "4:"+r.RuleText)
+					}
+					for _, r := range res.HostRulesV6 {
+						p = append(p, "6:"+r.RuleText)
+					}
+					sort.Strings(p)
+					return strings.Join(p, "|")
+				}
+				want := map[string]string{}
+				for _, nm := range names {
+					want[nm] = ser(e.Match(nm))
+				}
+				var mu sync.Mutex
+				flags := ""
+				var wg sync.WaitGroup
+				for w := 0; w < nw; w++ {
+					wg.Add(1)
+					go func(w int) {
+						defer wg.Done()
+						for it := 0; it < 6000/nw; it++ {
+							nm := names[(w+it%2)%len(names)]
+							res, ok := e.Match(nm)
+							got := ser(res, ok)
+							if got != want[nm] {
+								mu.Lock()
+								if flags == "" {
+									flags = fmt.Sprintf("!CONCURRENT-HOSTS-LOOKUP-DIFFERS:name=%s alone=%q concurrently=%q", nm, want[nm], got)
+								}
+								mu.Unlock()
+								return
+							}
+						}
+					}(w)
+				}
+				wg.Wait()
+				st.Inc("concurrent_lookup_cases")
+				return "ok" + flags, "echo\tok", true
+			}
 			text := unhx(f[0])
 			probes := decList(f[3])
 			var r rules.Rule
